@@ -78,7 +78,9 @@ def layouts_for(t):
 
 
 TEXTS = ["a,b,,c", ",a,", "ab", "", "a b  c", "l1\nl2\r\nl3\rl4\n", "x\n", "\n\nx", "Hello World", "  pad  ", "aXbXXc", "tab\there",
-         "ab\x0bc\x0cd\x1ce\x85f g h\x1di\x1ej", "aaa", "漢字 x", "\r\n\r", "e\u0301\u200bx", "\u0301a"]
+         "ab\x0bc\x0cd\x1ce\x85f g h\x1di\x1ej", "aaa", "漢字 x", "\r\n\r", "e\u0301\u200bx", "\u0301a",
+         # the 8-bit CSI and a lone ESC are ordinary characters of a text (only ESC '[' is the open finding D27)
+         "x\x9b4my ", " a\x1bb\x9b", "\x9b31m"]
 
 STR_METHODS = ["upper", "lower", "capitalize", "title", "swapcase", "casefold", "strip", "lstrip", "rstrip", "center", "zfill",
                "replace", "expandtabs", "removeprefix", "removesuffix"]
@@ -99,14 +101,15 @@ def arg_pool(name, t):
     if name in ("strip", "lstrip", "rstrip"):
         return [(), (" ",), (t[:1] + ",",), ("zq",)]
     if name == "center":
-        return [(w,) for w in (0, n - 1, n, n + 1, n + 4)] + [(n + 3, "."), (n + 2, "漢")]
+        return [(w,) for w in (0, n - 1, n, n + 1, n + 4)] + [(n + 3, "."), (n + 2, "漢"), (n + 2, "\x9b")] + \
+            ([(n + 2, "\x1b")] if not t.startswith("[") else [])
     if name == "encode":
         return [(), ("utf-8",), ("ascii", "replace")]
     if name == "zfill":
         return [(w,) for w in (0, n, n + 1, n + 3)]
     if name == "replace":
         esc = [("a", "\x1b[31mx\x1b[39m"), (subs[0], "\x1b[1m")] if len(t) in (2, 3) else []   # D27: rare
-        return [(s, r) for s in subs[:5] for r in ("", "Q", "long ")] + [(subs[0], "Q", 1)] + esc
+        return [(s, r) for s in subs[:5] for r in ("", "Q", "long ")] + [(subs[0], "Q", 1), (subs[0], "\x9b4m"), (subs[0], "\x1b")] + esc
     if name == "expandtabs":
         return [(), (4,)]
     if name in ("removeprefix", "removesuffix", "startswith", "endswith"):
@@ -127,7 +130,7 @@ def arg_pool(name, t):
         return [(), (False,), (True,)]
     if name in ("ljust", "rjust"):
         esc = [(n + 2, "\x1b")] if t.startswith("l1") else []                                    # D27: rare
-        return [(w,) for w in (-1, 0, n - 1, n, n + 1, n + 3)] + [(w, c) for w in (n - 1, n, n + 2) for c in (".", " ", "漢")] + esc
+        return [(w,) for w in (-1, 0, n - 1, n, n + 1, n + 3)] + [(w, c) for w in (n - 1, n, n + 2) for c in (".", " ", "漢")] + [(n + 2, "\x9b")] + esc
     if name == "join":
         red = ["f", [["q", {"fg": 31}]]]
         two = ["f", [["r", {"bold": True}], ["", {"bg": 44}], ["s", {}]]]
